@@ -3,8 +3,9 @@
   Property theorems only (helper lemmas live in Proofs/Lemmas).
 -/
 import SoundeventModel.Intervals
+import Proofs.Lemmas.Intervals
 namespace SE.Proofs.C12
-open SE SE.Intervals
+open SE SE.Intervals SE.Proofs.Lemmas.Intervals
 
 /-- symmetric in the two intervals, for every threshold setting (errors included) -/
 theorem C12_symm (s1 e1 s2 e2 : Rat) (abs rel : Option Rat) :
@@ -110,6 +111,417 @@ theorem C12_timestamp_inside_is_in (b : Bounds) (cs ce : Rat)
 theorem C12_touching_is_out (b : Bounds) (cs ce : Rat) (h : b.en = cs ∨ b.st = ce) :
     isInClip b cs ce 0 = some false := by
   rw [C12_in_clip_iff]; grind
+
+/-! ## Review R-C12: readings of the threshold, geometry level, is_in_clip as an overlap, floats -/
+
+/-- the default is the zero threshold in either mode -/
+theorem C12_default_is_zero_threshold (s1 e1 s2 e2 : Rat) :
+    intervalsOverlap s1 e1 s2 e2 none none = intervalsOverlap s1 e1 s2 e2 (some 0) none ∧
+    intervalsOverlap s1 e1 s2 e2 none none = intervalsOverlap s1 e1 s2 e2 none (some 0) := by
+  unfold intervalsOverlap threshold thrOverlap
+  have h1 : ¬ ((1 : Rat) < 0) := by decide +kernel
+  simp [h1]
+
+/-- "length of the intersection" read as a measure (`interLen`, 0 for disjoint intervals): for a
+    positive threshold the predicate is `measure ≥ threshold`, whatever the intervals -/
+theorem C12_iff_measure (s1 e1 s2 e2 a : Rat) (ha : 0 < a) :
+    intervalsOverlap s1 e1 s2 e2 (some a) none = some (decide (interLen s1 e1 s2 e2 ≥ a)) := by
+  unfold intervalsOverlap threshold thrOverlap interLen
+  simp
+  grind
+
+/-- a *negative* absolute threshold is not rejected: it is a gap tolerance — proper intervals
+    "overlap" iff some point of the one is within `-a` of some point of the other -/
+theorem C12_negative_abs_is_gap_tolerance (s1 e1 s2 e2 a : Rat) (h1 : s1 ≤ e1) (h2 : s2 ≤ e2)
+    (ha : a ≤ 0) :
+    intervalsOverlap s1 e1 s2 e2 (some a) none = some true ↔
+      ∃ x y, s1 ≤ x ∧ x ≤ e1 ∧ s2 ≤ y ∧ y ≤ e2 ∧ x - y ≤ -a ∧ y - x ≤ -a := by
+  unfold intervalsOverlap threshold thrOverlap
+  simp only [Option.map_some, Option.some.injEq, decide_eq_true_eq]
+  constructor
+  · intro h
+    by_cases hov : max s1 s2 ≤ min e1 e2
+    · exact ⟨max s1 s2, max s1 s2, by grind⟩
+    · by_cases hlt : e1 < s2
+      · exact ⟨e1, s2, by grind⟩
+      · exact ⟨s1, e2, by grind⟩
+  · rintro ⟨x, y, hx⟩; grind
+
+/-- relative threshold 1: one interval contains the other (end-point-wise; no properness needed) -/
+theorem C12_rel_one_iff_containment (s1 e1 s2 e2 : Rat) :
+    intervalsOverlap s1 e1 s2 e2 none (some 1) = some true ↔
+      ((s2 ≤ s1 ∧ e1 ≤ e2) ∨ (s1 ≤ s2 ∧ e2 ≤ e1)) := by
+  unfold intervalsOverlap threshold thrOverlap
+  simp
+  grind
+
+/-- `C12_monotone_rel` needs proper intervals: with a reversed interval the relative threshold
+    is negative and a *smaller* fraction is harder to meet -/
+theorem C12_monotone_rel_needs_proper :
+    intervalsOverlap 2 0 0 3 none (some 1) = some true ∧
+    intervalsOverlap 2 0 0 3 none (some 0) = some false := by decide +kernel
+
+/-- symmetric on the geometry level, errors and undefined bounds included -/
+theorem C12_geometry_symm (g1 g2 : Geom) (abs rel : Option Rat) :
+    haveTemporalOverlap g1 g2 abs rel = haveTemporalOverlap g2 g1 abs rel ∧
+    haveFrequencyOverlap g1 g2 abs rel = haveFrequencyOverlap g2 g1 abs rel := by
+  unfold haveTemporalOverlap haveFrequencyOverlap temporalOverlap frequencyOverlap
+  cases g1.bounds <;> cases g2.bounds <;> simp [C12_symm]
+
+/-- **delegation at full strength**: on geometries, temporal (frequency) overlap is the interval
+    predicate on `[least time, greatest time]` (`[least, greatest frequency]`) of the coordinates
+    `compute_bounds` ranges over, and is defined exactly when both geometries have a vertex -/
+theorem C12_geometry_extents (g1 g2 : Geom) (abs rel : Option Rat) (r : Option Bool) :
+    (haveTemporalOverlap g1 g2 abs rel = some r ↔
+      ∃ s1 e1 s2 e2, listMin (times g1) = some s1 ∧ listMax (times g1) = some e1 ∧
+        listMin (times g2) = some s2 ∧ listMax (times g2) = some e2 ∧
+        r = intervalsOverlap s1 e1 s2 e2 abs rel) ∧
+    (haveFrequencyOverlap g1 g2 abs rel = some r ↔
+      ∃ l1 h1 l2 h2, listMin (freqs g1) = some l1 ∧ listMax (freqs g1) = some h1 ∧
+        listMin (freqs g2) = some l2 ∧ listMax (freqs g2) = some h2 ∧
+        r = intervalsOverlap l1 h1 l2 h2 abs rel) := by
+  unfold haveTemporalOverlap haveFrequencyOverlap temporalOverlap frequencyOverlap
+  have none_of (g : Geom) (h : g.bounds = none) : listMin (times g) = none ∧ listMin (freqs g) = none := by
+    have : g.boundPts = [] := (SE.Proofs.Lemmas.Bounds.ptsBounds_eq_none _).mp h
+    simp [times, freqs, this, listMin]
+  cases hb1 : g1.bounds with
+  | none => simp [(none_of g1 hb1).1, (none_of g1 hb1).2]
+  | some b1 =>
+    cases hb2 : g2.bounds with
+    | none => simp [(none_of g2 hb2).1, (none_of g2 hb2).2]
+    | some b2 =>
+      obtain ⟨a1, a2, a3, a4⟩ := (bounds_eq_some_iff g1 b1).mp hb1
+      obtain ⟨c1, c2, c3, c4⟩ := (bounds_eq_some_iff g2 b2).mp hb2
+      simp only [a1, a2, a3, a4, c1, c2, c3, c4, Option.some.injEq]
+      constructor <;> constructor
+      · intro h; exact ⟨_, _, _, _, rfl, rfl, rfl, rfl, h.symm⟩
+      · rintro ⟨_, _, _, _, rfl, rfl, rfl, rfl, h⟩; exact h.symm
+      · intro h; exact ⟨_, _, _, _, rfl, rfl, rfl, rfl, h.symm⟩
+      · rintro ⟨_, _, _, _, rfl, rfl, rfl, rfl, h⟩; exact h.symm
+
+/-- defined for every geometry with a vertex (every validated geometry) -/
+theorem C12_geometry_defined (g1 g2 : Geom) (abs rel : Option Rat) :
+    (haveTemporalOverlap g1 g2 abs rel).isSome ↔ (g1.boundPts ≠ [] ∧ g2.boundPts ≠ []) := by
+  rw [← bounds_isSome_iff, ← bounds_isSome_iff]
+  unfold haveTemporalOverlap
+  cases g1.bounds <;> cases g2.bounds <;> simp
+
+/-- the extents of the closed-form types: a time stamp is `[t, t] × [0, MAXF]`, an interval
+    `[s, e] × [0, MAXF]`, a point `[t, t] × [f, f]`, a box `[s, e] × [l, h]` -/
+theorem C12_extent_table (t f s e l h : Rat) (hse : s ≤ e) (hlh : l ≤ h) :
+    (Geom.timeStamp t).bounds = some ⟨t, 0, t, MAXF⟩ ∧
+    (Geom.timeInterval s e).bounds = some ⟨s, 0, e, MAXF⟩ ∧
+    (Geom.point t f).bounds = some ⟨t, f, t, f⟩ ∧
+    (Geom.boundingBox s l e h).bounds = some ⟨s, l, e, h⟩ := by
+  have hM : (0 : Rat) ≤ MAXF := by decide +kernel
+  refine ⟨?_, ?_, ?_, ?_⟩ <;>
+    simp only [Geom.bounds, Geom.boundPts, ptsBounds, List.foldl, Option.some.injEq, Bounds.mk.injEq] <;>
+    grind
+
+/-- a time stamp and an interval overlap in time (default threshold) iff the stamp lies in the
+    closed interval; two time stamps iff they are equal -/
+theorem C12_timestamp_overlap (t t' s e : Rat) (hse : s ≤ e) :
+    (haveTemporalOverlap (.timeStamp t) (.timeInterval s e) none none = some (some true) ↔ (s ≤ t ∧ t ≤ e)) ∧
+    (haveTemporalOverlap (.timeStamp t) (.timeStamp t') none none = some (some true) ↔ t = t') := by
+  obtain ⟨h1, h2, _, _⟩ := C12_extent_table t 0 s e 0 0 hse (Rat.le_refl)
+  obtain ⟨h1', _, _, _⟩ := C12_extent_table t' 0 s e 0 0 hse (Rat.le_refl)
+  unfold haveTemporalOverlap temporalOverlap intervalsOverlap threshold thrOverlap
+  rw [h1, h2, h1']
+  simp
+  grind
+
+/-- time-only geometries span the whole band: with the default threshold they overlap in
+    frequency with every geometry whose frequencies lie in `[0, MAXF]` -/
+theorem C12_time_only_frequency_overlap (t s e : Rat) (hse : s ≤ e) (g : Geom) (b : Bounds)
+    (hb : g.bounds = some b) (hlo : 0 ≤ b.lo) (hhi : b.hi ≤ MAXF) :
+    haveFrequencyOverlap (.timeStamp t) g none none = some (some true) ∧
+    haveFrequencyOverlap (.timeInterval s e) g none none = some (some true) := by
+  obtain ⟨h1, h2, _, _⟩ := C12_extent_table t 0 s e 0 0 hse (Rat.le_refl)
+  have hM : (0 : Rat) ≤ MAXF := by decide +kernel
+  have ho : b.lo ≤ b.hi :=
+    (SE.Proofs.Lemmas.Bounds.isBoundsOf_ordered b _ (SE.Proofs.Lemmas.Bounds.ptsBounds_isBoundsOf _ _ hb)).2
+  unfold haveFrequencyOverlap frequencyOverlap intervalsOverlap threshold thrOverlap
+  rw [h1, h2, hb]
+  simp
+  grind
+
+/-! ### is_in_clip on geometries and as an overlap length -/
+
+theorem C12_in_clip_geom_iff (g : Geom) (cs ce m : Rat) (v : Bool) :
+    isInClipGeom g cs ce m = some (some v) ↔
+      (0 ≤ m ∧ ∃ s e, listMin (times g) = some s ∧ listMax (times g) = some e ∧
+        v = decide (e > cs + m ∧ s < ce - m)) := by
+  unfold isInClipGeom
+  by_cases hm : m < 0
+  · simp [hm]; grind
+  · have hm' : 0 ≤ m := by grind
+    simp only [hm, if_false, hm', true_and]
+    cases hb : g.bounds with
+    | none =>
+      have : g.boundPts = [] := (SE.Proofs.Lemmas.Bounds.ptsBounds_eq_none _).mp hb
+      simp [times, this, listMin]
+    | some b =>
+      obtain ⟨a1, a2, _, _⟩ := (bounds_eq_some_iff g b).mp hb
+      simp only [a1, a2, Option.some.injEq]
+      rw [C12_in_clip_iff]
+      constructor
+      · rintro ⟨_, h⟩; exact ⟨_, _, rfl, rfl, h⟩
+      · rintro ⟨_, _, rfl, rfl, h⟩; exact ⟨hm', h⟩
+
+/-- a negative minimum is rejected before the geometry is looked at -/
+theorem C12_in_clip_geom_rejects (g : Geom) (cs ce m : Rat) :
+    isInClipGeom g cs ce m = some none ↔ m < 0 := by
+  unfold isInClipGeom isInClip
+  by_cases hm : m < 0
+  · simp [hm]
+  · cases g.bounds <;> simp [hm] <;> split <;> simp
+
+/-- `is_in_clip` against the docstring's "minimum required temporal overlap": the overlap of the
+    event with the clip exceeds `m` iff `is_in_clip` holds **and** both the event and the clip are
+    longer than `m` -/
+theorem C12_in_clip_vs_overlap_length (b : Bounds) (cs ce m : Rat) (hm : 0 ≤ m) :
+    (min b.en ce - max b.st cs > m) ↔
+      (isInClip b cs ce m = some true ∧ b.en - b.st > m ∧ ce - cs > m) := by
+  rw [C12_in_clip_iff]; simp [hm]; grind
+
+/-- … and it does *not* measure the overlap when the clip (or the event) is shorter than `m`:
+    event `[0, 10]`, clip `[4, 5]`, minimum 2 — in, with an overlap of 1 -/
+theorem C12_in_clip_is_not_overlap_length :
+    isInClip ⟨0, 0, 10, 5⟩ 4 5 2 = some true ∧ min (10 : Rat) 5 - max 0 4 < 2 := by decide +kernel
+
+/-- with the default minimum: in iff the open event meets the open clip (events of positive
+    duration), resp. the stamp lies strictly inside (zero duration) -/
+theorem C12_in_clip_default_open (b : Bounds) (cs ce : Rat) :
+    isInClip b cs ce 0 = some true ↔
+      (cs < b.en ∧ b.st < ce) := by
+  rw [C12_in_clip_iff]; simp; grind
+
+theorem C12_in_clip_default_common_point (b : Bounds) (cs ce : Rat) (hb : b.st < b.en) (hc : cs < ce) :
+    isInClip b cs ce 0 = some true ↔ ∃ x, b.st < x ∧ x < b.en ∧ cs < x ∧ x < ce := by
+  rw [C12_in_clip_iff]; simp
+  constructor
+  · intro h
+    exact ⟨(max b.st cs + min b.en ce) / 2, by grind⟩
+  · rintro ⟨x, hx⟩; grind
+
+/-- monotone in the minimum: whatever is in with a larger minimum is in with a smaller one -/
+theorem C12_in_clip_antitone (b : Bounds) (cs ce m m' : Rat) (h0 : 0 ≤ m) (h : m ≤ m')
+    (hin : isInClip b cs ce m' = some true) : isInClip b cs ce m = some true := by
+  rw [C12_in_clip_iff] at *; simp at *; grind
+
+/-! ### binary64: the computation operation by operation in a rounding arithmetic -/
+
+/-- the laws of a rounding the theorems below use: monotone, exact at 0, and a non-zero number
+    is not rounded to zero (binary64 subtraction never underflows to 0; products do not in the
+    range the check generates) -/
+structure IsRnd (rnd : Rat → Rat) : Prop where
+  mono : ∀ x y, x ≤ y → rnd x ≤ rnd y
+  zero : rnd 0 = 0
+  neg : ∀ x, x < 0 → rnd x < 0
+
+theorem isRnd_id : IsRnd id := ⟨fun _ _ h => h, rfl, fun _ h => h⟩
+
+/-- a rounding that is not the identity and obeys the laws: `x ↦ 2x` below 0, `x` above
+    (non-vacuity of the hypotheses with a function that really changes numbers) -/
+theorem isRnd_example : IsRnd (fun x : Rat => if x < 0 then 2 * x else x) := by
+  refine ⟨?_, ?_, ?_⟩
+  · intro x y h; by_cases hx : x < 0 <;> by_cases hy : y < 0 <;> simp [hx, hy] <;> grind
+  · simp
+  · intro x hx; simp [hx]; grind
+
+/-- exact arithmetic is the instance `rnd = id` -/
+theorem C12_float_id (s1 e1 s2 e2 : Rat) (abs rel : Option Rat) (b : Bounds) (cs ce m : Rat) :
+    intervalsOverlapR id s1 e1 s2 e2 abs rel = intervalsOverlap s1 e1 s2 e2 abs rel ∧
+    isInClipR id b cs ce m = isInClip b cs ce m := by
+  unfold intervalsOverlapR thresholdR intervalsOverlap threshold thrOverlap isInClipR isInClip
+  constructor
+  · rcases abs with _ | a <;> rcases rel with _ | r <;> simp
+  · simp
+
+/-- symmetric in binary64 as well — for *any* rounding function, no law needed -/
+theorem C12_float_symm (rnd : Rat → Rat) (s1 e1 s2 e2 : Rat) (abs rel : Option Rat) :
+    intervalsOverlapR rnd s1 e1 s2 e2 abs rel = intervalsOverlapR rnd s2 e2 s1 e1 abs rel := by
+  unfold intervalsOverlapR thresholdR
+  have hmin : min e1 e2 = min e2 e1 := by grind
+  have hmax : max s1 s2 = max s2 s1 := by grind
+  have hw : min (rnd (e1 - s1)) (rnd (e2 - s2)) = min (rnd (e2 - s2)) (rnd (e1 - s1)) := by grind
+  rw [hmin, hmax, hw]
+
+/-- rejection does not depend on the arithmetic -/
+theorem C12_float_rejects (rnd : Rat → Rat) (s1 e1 s2 e2 : Rat) (abs rel : Option Rat) :
+    intervalsOverlapR rnd s1 e1 s2 e2 abs rel = none ↔ intervalsOverlap s1 e1 s2 e2 abs rel = none := by
+  unfold intervalsOverlapR thresholdR intervalsOverlap threshold
+  rcases abs with _ | a <;> rcases rel with _ | r <;> simp
+
+/-- the default threshold is decided exactly in binary64: no rounding artefact for any floats -/
+theorem C12_float_default_exact (rnd : Rat → Rat) (R : IsRnd rnd) (s1 e1 s2 e2 : Rat) :
+    intervalsOverlapR rnd s1 e1 s2 e2 none none = intervalsOverlap s1 e1 s2 e2 none none := by
+  unfold intervalsOverlapR thresholdR intervalsOverlap threshold thrOverlap
+  simp only [Option.map_some, Option.some.injEq, decide_eq_decide]
+  constructor
+  · intro h
+    by_cases hx : min e1 e2 - max s1 s2 < 0
+    · have := R.neg _ hx; grind
+    · grind
+  · intro h
+    have := R.mono 0 _ h
+    rw [R.zero] at this; exact this
+
+/-- an absolute threshold that is a number of the arithmetic: rounding can only err towards
+    "overlap" (exactly true ⇒ true in binary64), and not at all when the subtraction is exact -/
+theorem C12_float_abs_one_sided (rnd : Rat → Rat) (R : IsRnd rnd) (s1 e1 s2 e2 a : Rat)
+    (ha : rnd a = a) :
+    (intervalsOverlap s1 e1 s2 e2 (some a) none = some true →
+      intervalsOverlapR rnd s1 e1 s2 e2 (some a) none = some true) ∧
+    (rnd (min e1 e2 - max s1 s2) = min e1 e2 - max s1 s2 →
+      intervalsOverlapR rnd s1 e1 s2 e2 (some a) none = intervalsOverlap s1 e1 s2 e2 (some a) none) := by
+  unfold intervalsOverlapR thresholdR intervalsOverlap threshold thrOverlap
+  simp only [Option.map_some, Option.some.injEq, decide_eq_true_eq]
+  constructor
+  · intro h
+    have := R.mono _ _ h
+    rw [ha] at this; exact this
+  · intro h; rw [h]
+
+/-- monotone in both thresholds in binary64 too (relative: float-proper intervals) -/
+theorem C12_float_monotone (rnd : Rat → Rat) (R : IsRnd rnd) (s1 e1 s2 e2 : Rat) :
+    (∀ a a', a ≤ a' → intervalsOverlapR rnd s1 e1 s2 e2 (some a') none = some true →
+      intervalsOverlapR rnd s1 e1 s2 e2 (some a) none = some true) ∧
+    (∀ r r', s1 ≤ e1 → s2 ≤ e2 → 0 ≤ r → r ≤ r' → r' ≤ 1 →
+      intervalsOverlapR rnd s1 e1 s2 e2 none (some r') = some true →
+      intervalsOverlapR rnd s1 e1 s2 e2 none (some r) = some true) := by
+  unfold intervalsOverlapR thresholdR
+  constructor
+  · intro a a' h
+    simp only [Option.map_some, Option.some.injEq, decide_eq_true_eq]
+    grind
+  · intro r r' h1 h2 h0 h h1'
+    have hr : ¬ (r < 0 ∨ r > 1) := by grind
+    have hr' : ¬ (r' < 0 ∨ r' > 1) := by grind
+    simp only [hr, hr', if_false, Option.map_some, Option.some.injEq, decide_eq_true_eq]
+    have w1 : 0 ≤ rnd (e1 - s1) := by
+      have := R.mono 0 (e1 - s1) (by grind); rwa [R.zero] at this
+    have w2 : 0 ≤ rnd (e2 - s2) := by
+      have := R.mono 0 (e2 - s2) (by grind); rwa [R.zero] at this
+    have hw : 0 ≤ min (rnd (e1 - s1)) (rnd (e2 - s2)) := by grind
+    have hm := R.mono _ _ (Rat.mul_le_mul_of_nonneg_right h hw)
+    grind
+
+/-- when every intermediate result is a number of the arithmetic (the dyadic grids of the
+    exact correspondence), binary64 computes the exact predicate -/
+theorem C12_float_exact_on_grid (rnd : Rat → Rat) (s1 e1 s2 e2 : Rat) (abs rel : Option Rat)
+    (hx : rnd (min e1 e2 - max s1 s2) = min e1 e2 - max s1 s2)
+    (hw1 : rnd (e1 - s1) = e1 - s1) (hw2 : rnd (e2 - s2) = e2 - s2)
+    (hp : ∀ r, rel = some r → rnd (r * min (e1 - s1) (e2 - s2)) = r * min (e1 - s1) (e2 - s2)) :
+    intervalsOverlapR rnd s1 e1 s2 e2 abs rel = intervalsOverlap s1 e1 s2 e2 abs rel := by
+  unfold intervalsOverlapR thresholdR intervalsOverlap threshold thrOverlap
+  rw [hx, hw1, hw2]
+  rcases abs with _ | a <;> rcases rel with _ | r <;> simp
+  rw [hp r rfl]
+
+/-- `is_in_clip` in binary64: exact with the default minimum (clip ends are numbers of the
+    arithmetic); with a positive minimum rounding moves the two edges by at most one rounding of
+    `start + m`, `end − m`, and whatever is exactly "out" at an edge stays out when the sums are
+    rounded monotonically -/
+theorem C12_float_in_clip (rnd : Rat → Rat) (R : IsRnd rnd) (b : Bounds) (cs ce m : Rat)
+    (hcs : rnd cs = cs) (hce : rnd ce = ce) (hst : rnd b.st = b.st) (hen : rnd b.en = b.en) :
+    isInClipR rnd b cs ce 0 = isInClip b cs ce 0 ∧
+    (isInClipR rnd b cs ce m = some true → isInClip b cs ce m = some true) ∧
+    (isInClipR rnd b cs ce m = none ↔ m < 0) := by
+  unfold isInClipR isInClip
+  refine ⟨?_, ?_, ?_⟩
+  · have a1 : cs + 0 = cs := by grind
+    have a2 : ce - 0 = ce := by grind
+    simp only [a1, a2, hcs, hce]
+  · by_cases hm : m < 0
+    · simp [hm]
+    · simp only [hm, if_false]
+      intro h
+      have e1 : b.en ≤ cs + m → b.en ≤ rnd (cs + m) := by
+        intro h'; have := R.mono _ _ h'; rwa [hen] at this
+      have e2 : b.st ≥ ce - m → b.st ≥ rnd (ce - m) := by
+        intro h'; have := R.mono _ _ h'; rwa [hst] at this
+      grind
+  · by_cases hm : m < 0
+    · simp [hm]
+    · simp only [hm, if_false]; split <;> simp
+
+/-- **binary64 against exact arithmetic, all thresholds**: for every rounding with relative error
+    ≤ `u` (binary64: `u = 2⁻⁵³`) the computed answer is the exact one whenever the exact margin
+    `(intersection length − threshold)` lies outside `floatBand u = u·(|x| + 3·max |w₁| |w₂|)`;
+    and the call raises exactly when the exact model does.  `floatOk` is the statement the check
+    evaluates on the real code for arbitrary (non-dyadic) floats. -/
+theorem C12_float_band (u : Rat) (rnd : Rat → Rat) (R : RelErr u rnd) (hu0 : 0 ≤ u) (hu1 : u ≤ 1)
+    (s1 e1 s2 e2 : Rat) (abs rel : Option Rat) :
+    floatOk u s1 e1 s2 e2 abs rel (intervalsOverlapR rnd s1 e1 s2 e2 abs rel) = true := by
+  have hx := R (min e1 e2 - max s1 s2)
+  have n1 := absR_nonneg (e1 - s1)
+  have n2 := absR_nonneg (e2 - s2)
+  have nx := absR_nonneg (min e1 e2 - max s1 s2)
+  have hW : 0 ≤ max (absR (e1 - s1)) (absR (e2 - s2)) := by grind
+  have hc : 0 ≤ u * max (absR (e1 - s1)) (absR (e2 - s2)) := Rat.mul_nonneg hu0 hW
+  have hband : floatBand u s1 e1 s2 e2 =
+      u * absR (min e1 e2 - max s1 s2) + 3 * (u * max (absR (e1 - s1)) (absR (e2 - s2))) := by
+    unfold floatBand; grind
+  unfold floatOk intervalsOverlapR thresholdR threshold
+  rw [hband]
+  generalize u * absR (min e1 e2 - max s1 s2) = bx at *
+  generalize hcd : u * max (absR (e1 - s1)) (absR (e2 - s2)) = c at *
+  rcases abs with _ | a <;> rcases rel with _ | r
+  · simp only [Option.map_some]
+    unfold absR at hx
+    split <;> (try split) <;> (try simp) <;> (try grind)
+  · by_cases hr : r < 0 ∨ r > 1
+    · simp [hr]
+    · have ht := rel_threshold_error u rnd R hu0 hu1 (e1 - s1) (e2 - s2) r (by grind) (by grind)
+      rw [hcd] at ht
+      simp only [hr, if_false, Option.map_some]
+      generalize rnd (r * min (rnd (e1 - s1)) (rnd (e2 - s2))) = T at *
+      generalize r * min (e1 - s1) (e2 - s2) = Q at *
+      unfold absR at hx ht
+      split <;> (try split) <;> (try simp) <;> (try grind)
+  · simp only [Option.map_some]
+    unfold absR at hx
+    split <;> (try split) <;> (try simp) <;> (try grind)
+  · simp
+
+theorem C12_float_in_clip_band (u : Rat) (rnd : Rat → Rat) (R : RelErr u rnd)
+    (b : Bounds) (cs ce m : Rat) :
+    clipFloatOk u b cs ce m (isInClipR rnd b cs ce m) = true := by
+  have h1 := R (cs + m)
+  have h2 := R (ce - m)
+  unfold clipFloatOk isInClipR isInClip
+  generalize u * absR (cs + m) = b1 at *
+  generalize u * absR (ce - m) = b2 at *
+  unfold absR at h1 h2
+  by_cases hm : m < 0
+  · simp [hm]
+  · simp only [hm, if_false]
+    by_cases hA : b.en ≤ cs + m ∨ b.st ≥ ce - m <;> by_cases hB : b.en ≤ rnd (cs + m) ∨ b.st ≥ rnd (ce - m) <;>
+      simp only [hA, hB, if_true, if_false] <;> split <;> (try split) <;> (try simp) <;> (try grind)
+
+/-- non-vacuity of `RelErr`: exact arithmetic has relative error 0 ≤ u -/
+theorem relErr_id (u : Rat) (hu : 0 ≤ u) : RelErr u id := by
+  intro x
+  have : absR (id x - x) = 0 := by unfold absR; simp only [id]; split <;> grind
+  rw [this]; exact Rat.mul_nonneg hu (absR_nonneg x)
+
+-- non-vacuity of the additions
+example : haveTemporalOverlap (.timeStamp 1) (.timeInterval 1 2) none none = some (some true) := by decide +kernel
+example : haveTemporalOverlap (.point 1 7) (.boundingBox 2 0 3 9) (some (1/2)) none = some (some false) := by decide +kernel
+example : haveFrequencyOverlap (.point 1 7) (.boundingBox 2 0 3 9) none (some 1) = some (some true) := by decide +kernel
+example : haveFrequencyOverlap (.lineString []) (.timeStamp 0) none none = none := by decide +kernel
+example : isInClipGeom (.timeStamp 0) 0 1 0 = some (some false) := by decide +kernel
+example : isInClipGeom (.timeStamp (1/2)) 0 1 0 = some (some true) := by decide +kernel
+example : isInClipGeom (.timeStamp (1/2)) 0 1 (-1) = some none := by decide +kernel
+example : intervalsOverlap 0 1 (5/4) 2 (some (-1/2)) none = some true := by decide +kernel
+example : intervalsOverlap 0 2 (1/2) 1 none (some 1) = some true := by decide +kernel
+example : floatOk (1/100) 0 1 (1/4) 2 (some (3/5)) none (some true) = true ∧
+    floatOk (1/100) 0 1 (1/4) 2 (some (3/5)) none (some false) = false ∧
+    floatOk (1/100) 0 1 (1/4) 2 (some (3/4)) none (some false) = true := by decide +kernel
+-- a rounding that changes the answer: rounding down to integers turns 0.75 ≥ 0.6 into 0 ≥ 0.6
+example : intervalsOverlap 0 1 (1/4) 2 (some (3/5)) none = some true ∧
+    intervalsOverlapR (fun x => (x.floor : Rat)) 0 1 (1/4) 2 (some (3/5)) none = some false := by decide +kernel
 
 -- non-vacuity: the hypotheses above are satisfiable and the predicate takes both values
 example : intervalsOverlap 1 3 2 4 none (some (1/4)) = some true := by decide +kernel
